@@ -302,6 +302,7 @@ class C11Machine(RecordingMixin, RuleBasedStateMachine):
         self.pc = pc
         # the user keeps a reference to the objects handed over (and may complete them later)
         self.quick_ps_obj, self.an_ps_obj = postsel.to_real(ps), postsel.to_real(ps)
+        self.sampler_ps_obj = postsel.to_real(ps)
         self.quick.post_select = self.quick_ps_obj
         self.quick.photon_counting = pc
         self.analyzer.post_selection = self.an_ps_obj
@@ -320,6 +321,8 @@ class C11Machine(RecordingMixin, RuleBasedStateMachine):
         ps["rules"].append([[mode], [count]])
         call("PostSelection.add on the object given to the QuickSampler", self.quick_ps_obj.add, mode, count)
         call("PostSelection.add on the object given to the Analyzer", self.an_ps_obj.add, mode, count)
+        call("PostSelection.add on the object passed to the Sampler's sampling calls", self.sampler_ps_obj.add,
+             mode, count)
         self.ps = ps
         self.changed("post-selection-edited-in-place")
 
@@ -353,6 +356,9 @@ class C11Machine(RecordingMixin, RuleBasedStateMachine):
                 return fn()
             return run
         real_ps = lambda: postsel.to_real(self.ps)  # noqa: E731
+        # the long-lived Sampler is given the same post-selection object call after call (the user's object, which
+        # may have been extended in between); the fresh Sampler gets a new object with the same rules
+        held_ps = lambda: getattr(self, "sampler_ps_obj", None) if self.ps is not None else None  # noqa: E731
         if which == "sampler.sample":
             self.compare("Sampler.sample()", seeded(lambda: self.sampler.sample()),
                          seeded(lambda: self.fresh_sampler().sample()), eq)
@@ -361,12 +367,12 @@ class C11Machine(RecordingMixin, RuleBasedStateMachine):
                          seeded(lambda: self.fresh_quick().sample()), eq)
         elif which == "N_inputs":
             self.compare("Sampler.sample_N_inputs()",
-                         lambda: dict(self.sampler.sample_N_inputs(n, post_select=real_ps(), seed=seed)),
+                         lambda: dict(self.sampler.sample_N_inputs(n, post_select=held_ps(), seed=seed)),
                          lambda: dict(self.fresh_sampler().sample_N_inputs(n, post_select=real_ps(), seed=seed)),
                          eq)
         elif which == "N_outputs":
             self.compare("Sampler.sample_N_outputs()",
-                         lambda: dict(self.sampler.sample_N_outputs(n, post_select=real_ps(), seed=seed)),
+                         lambda: dict(self.sampler.sample_N_outputs(n, post_select=held_ps(), seed=seed)),
                          lambda: dict(self.fresh_sampler().sample_N_outputs(n, post_select=real_ps(), seed=seed)),
                          eq)
         else:
@@ -548,6 +554,32 @@ class C11Machine(RecordingMixin, RuleBasedStateMachine):
         self.step("quick_ps_add", mode=mode, count=count)
         self.step("read", which="quick")
         self.step("sample", which="quick.N_outputs", seed=seed, n=20)
+
+    @rule(m0=st.integers(0, 5), mode=st.integers(0, 5), count=st.integers(0, 2), seed=st.integers(0, 2 ** 20),
+          which=st.sampled_from(["N_outputs", "N_inputs"]))
+    def r_sample_ps_add_sample(self, m0, mode, count, seed, which):
+        """seeded sampling with a post-selection object -> a rule is added to that object -> the same call again"""
+        if not self.ready or self.circ.input_modes == 0:
+            return
+        n = self.circ.input_modes
+        self.step("quick_cfg", ps={"rules": [[[m0 % n], [0, 1]]], "multi": True}, pc=self.pc)
+        self.step("sample", which=which, seed=seed, n=20)
+        self.step("quick_ps_add", mode=mode, count=count)
+        self.step("sample", which=which, seed=seed, n=20)
+
+    @rule(v1=st.sampled_from([0.2, 0.5, 0.9]), v2=st.sampled_from([0.0, 1.0, 2.5]), i=st.integers(0, 1),
+          delta=st.sampled_from([1e-6, 3e-7, -2e-6, 5e-6, 1e-5]), occ=st.lists(st.integers(0, 1), min_size=2, max_size=4))
+    def r_read_nudge_read(self, v1, v2, i, delta, occ):
+        """cached distributions -> a circuit Parameter moves by a very small amount -> read again"""
+        if not self.ready:
+            return
+        self.step("param_circuit", v1=v1, v2=v2)
+        self.step("input", occ=occ)
+        self.step("read", which="sampler")
+        self.step("read", which="quick")
+        self.step("set_param", i=i, v=(v1, v2)[i] + delta)
+        self.step("read", which="sampler")
+        self.step("read", which="quick")
 
     @rule(pc=st.booleans())
     def r_quick_pc_only(self, pc):
